@@ -69,6 +69,24 @@ def oracle(case):
     r = run_one(case)
     if r[0] not in ("ok", "parse"):
         return None if r[0] == "config-error" else "unexpected outcome %r" % (r,)
+    if spec[0] == "logic" and spec[1] == "&":
+        # conjunction: the arguments applied in order to the running value
+        cur = case["value"]
+        for a in spec[2]:
+            ra = run_one(dict(case, spec=a, value=cur))
+            if ra[0] not in ("ok", "parse"):
+                return None
+            if ra[0] == "parse":
+                return None if r[0] == "parse" else "conjunction accepts (%r) although argument %r rejects the running value %r" % (r[1], a, cur)
+            cur = ra[1]
+        if r[0] != "ok":
+            return "conjunction rejects although every argument accepts the running value in order (expected %r)" % (cur,)
+        try:
+            if not (r[1] == cur or (r[1] != r[1] and cur != cur)) or type(r[1]) is not type(cur):
+                return "conjunction gives %r, the arguments applied in order give %r" % (r[1], cur)
+        except Exception:
+            pass
+        return None
     av = arg_verdicts(case)
     if any(a[0] not in ("ok", "parse") for a in av):
         return None
@@ -210,7 +228,7 @@ def main(tier, seed):
         cases.append(c)
         if rng.random() < 0.35:
             cases.extend(permutations_of(c)[:2])
-    parsesuite.run_suite(res, cases, "logic")
+    mism = parsesuite.run_suite(res, cases, "logic") or []
     if core.build(["Model/Combine.vo"])["ok"]:
         combine_suite(res, tier, seed)
     # the property itself on the implementation
@@ -226,6 +244,14 @@ def main(tier, seed):
                   dict(failures=len(bad), incomplete=len(hard)))
     for c, o in bad[:3]:
         res.violations.append(dict(case=repr(c), observed=o, what=o))
+    if not bad and mism:
+        # the model and the implementation differ: is the property violated on one of those inputs?
+        mo = core.pool_map(oracle, [c for c, _ in mism[:400]])
+        for (c, _), o in zip(mism[:400], mo):
+            if isinstance(o, str):
+                res.violations.append(dict(case=repr(c), observed=o, what=o))
+                if len(res.violations) >= 3:
+                    break
     return core.finish(res, "make -C coq Props/C09.vo && coqc (Print Assumptions audit)", "see suites", search=None,
                        level_note="semantics theorems are about Model/Parse.v logical_parse (tied by the logic suite); the construction "
                                   "algebra is about the hand model Model/Combine.v (tied by the combine suite, structural comparison)")
